@@ -163,12 +163,19 @@ pub fn package(tier: Tier) -> Pkg {
             "filtermap fm_p_u32(x: u32) { reject x }".into(),
         ),
     );
-    // an unsuffixed literal: the documentation does not say which integer type it gets
-    {
-        let src = "filtermap fm_a_lit() { accept 5 }".to_string();
+    // payload types the documentation leaves open: an unsuffixed literal, a
+    // payload whose type argument nothing determines. Only "no panic" is demanded.
+    for (name, body) in [
+        ("fm_a_lit", "accept 5"),
+        ("fm_a_float", "accept 1.5"),
+        ("fm_a_none", "accept Option.None"),
+        ("fm_r_none", "reject Option.None"),
+        ("fm_a_empty", "accept []"),
+    ] {
+        let src = format!("filtermap {name}() {{ {body} }}");
         root.push_str(&src);
         root.push('\n');
-        t.push(Target { name: "fm_a_lit".into(), expect: Expect::Unspecified, sig: None, kind: "filtermap", src });
+        t.push(Target { name: name.into(), expect: Expect::Unspecified, sig: None, kind: "filtermap", src });
     }
 
     // ---- arity
@@ -177,6 +184,25 @@ pub fn package(tier: Tier) -> Pkg {
         let ps: Vec<String> = s.iter().enumerate().map(|(i, t)| format!("x{i}: {}", t.roto())).collect();
         let src = format!("fn {name}({}) {{}}", ps.join(", "));
         let tg = func(&name, "arity", s.clone(), unit(), src.clone());
+        root.push_str(&src);
+        root.push('\n');
+        t.push(tg);
+    }
+
+    // more parameters than any Rust function type that can be requested has
+    for n in [8usize, 9] {
+        let name = format!("a{n}_n");
+        let ps: Vec<String> = (0..n).map(|i| format!("x{i}: u8")).collect();
+        let src = format!("fn {name}({}) {{}}", ps.join(", "));
+        let tg = func(&name, "arity", vec![l(Leaf::U8); n], unit(), src.clone());
+        root.push_str(&src);
+        root.push('\n');
+        t.push(tg);
+    }
+    // a function that never returns
+    {
+        let src = "fn r_never() -> ! { return r_never() }".to_string();
+        let tg = func("r_never", "alien", vec![], T::Alien("roto:!"), src.clone());
         root.push_str(&src);
         root.push('\n');
         t.push(tg);
